@@ -17,6 +17,7 @@ import PqlModel.Spec.LexOracle
 import PqlModel.Spec.ParseOracle
 import PqlModel.Spec.WalkOracle
 import PqlModel.Spec.CompileOracle
+import PqlModel.Spec.CliSpec
 import Driver.Proto
 open Pql
 
@@ -75,6 +76,14 @@ def fmtCompile : CompileResult → String
 /-- the implementation's compile result with positions and panic text dropped -/
 def normCompile (impl : String) : String :=
   if impl.startsWith "ERR" then "ERR" else if impl.startsWith "PANIC" then "PANIC" else impl
+
+def fmtCli (r : CliResult) : String :=
+  "EXIT " ++ (if r.exitNonZero then "1" else "0") ++ " NERR " ++ toString r.nErrors ++ " OUT " ++ Bytes.toHexField r.out
+
+def modelCompileOpt (src : Bytes) : Option Bytes :=
+  match compile [] src with
+  | .ok sql => some sql
+  | _ => none
 
 structure Verdict where
   model : String
@@ -141,6 +150,23 @@ def runOp (op : String) (fields : List String) (impl : String) : Option Verdict 
     let s ← Bytes.ofHex h
     pure { model := Bytes.toHexField (if which == "s" then quoteSQLString s else quoteIdentifier s),
            oracle := CompileOracle.quoteClauses (which == "s") s impl }
+  | "CLI", [h, _mode] => do
+    let input ← Bytes.ofHex h
+    let lines := bufioLines input
+    let spec := CliSpec.run modelCompileOpt lines.1 lines.2
+    -- oracle: the tool's observable behaviour is the whole-input specification's
+    let oracle : List String :=
+      if impl == "HANG" then ["c12-hang"]
+      else if impl.startsWith "PANIC" then ["c12-panic"]
+      else if impl == fmtCli spec then []
+      else
+        match impl.splitOn " " with
+        | ["EXIT", code, "NERR", _, "OUT", out] =>
+          (if out != Bytes.toHexField spec.out then ["c16-stdout-differs-from-specification"] else []) ++
+          (if (code != "0") != spec.exitNonZero then ["c16-exit-status-differs-from-specification"] else []) ++
+          (if out == Bytes.toHexField spec.out && (code != "0") == spec.exitNonZero then ["c16-error-count-differs"] else [])
+        | _ => ["unreadable-result"]
+    pure { model := fmtCli (cliMain modelCompileOpt input), oracle }
   | "PARSEV", [h] => do
     let s ← Bytes.ofHex h
     pure { model := fmtParse (parse s), oracle := ParseOracle.clauses s impl true }
